@@ -735,5 +735,14 @@ def r06_19(ctx):
                              else "a well-formed number is refused by the form check"), f.loc()))
 
 
+def r06_20(ctx):
+    """R06.20 the condition of a range or default can be evaluated for every operand: _sym_to_num() converts a fractional
+    literal of unknown type, expr_value() passes no operand through float() (C09 R09.16) - otherwise `range 0 10 if GAIN >= 8.0`
+    is decided by comparing text and the value leaves its active range."""
+    from . import c09
+    from .common import delegate
+    delegate(ctx, c09.r09_16, lambda c: True)
+
+
 def rules():
-    return [("R06.19", r06_19, 13), ("R06.18", r06_18, 3), ("R06.17", r06_17, 3), ("R06.16", r06_16, 6), ("R06.15", r06_15, 4), ("R06.14", r06_14, 2), ("R06.13", r06_13, 3), ("R06.12", r06_12, 1), ("R06.11", r06_11, 3), ("R06.10", r06_10, 12), ("R06.6", r06_6, 14), ("R06.7", r06_7, 3), ("R06.1", r06_1, 7), ("R06.2", r06_2, 6), ("R06.3", r06_3, 2), ("R06.4", r06_4, 20), ("R06.5", r06_5, 3), ("R06.8", r06_8, 12), ("R06.9", r06_9, 1)]
+    return [("R06.20", r06_20, 2), ("R06.19", r06_19, 13), ("R06.18", r06_18, 3), ("R06.17", r06_17, 3), ("R06.16", r06_16, 6), ("R06.15", r06_15, 4), ("R06.14", r06_14, 2), ("R06.13", r06_13, 3), ("R06.12", r06_12, 1), ("R06.11", r06_11, 3), ("R06.10", r06_10, 12), ("R06.6", r06_6, 14), ("R06.7", r06_7, 3), ("R06.1", r06_1, 7), ("R06.2", r06_2, 6), ("R06.3", r06_3, 2), ("R06.4", r06_4, 20), ("R06.5", r06_5, 3), ("R06.8", r06_8, 12), ("R06.9", r06_9, 1)]
